@@ -268,6 +268,12 @@ def sec_single(rec, patches=None):
             "copy": (lambda ld: ld.copy(), tags),
             "binning(1)": (lambda ld: ld.binning(1), tags),
             "head(2).tail(1)": (lambda ld: ld.head(2).tail(1), ["m1"]),
+            "tail(0)": (lambda ld: ld.tail(0), []),
+            "head(0)": (lambda ld: ld.head(0), []),
+            "tail(5)": (lambda ld: ld.tail(5), tags),
+            "head(-1)": (lambda ld: ld.head(-1), tags[:2]),
+            "tail(-1)": (lambda ld: ld.tail(-1), tags[1:]),
+            "tail(3).head(0).tail(0)": (lambda ld: ld.tail(3).head(0).tail(0), []),
         }
         for name, (fn, want) in derived.items():
             def run():
